@@ -332,7 +332,7 @@ def run(ctx):
         sample = next((r for r in recs[len(recs) // 3:] if r["sc"]["mode"] == mode and r["out"]), None)
         if sample:
             ctx.sample({"spec_behaviour": sample})
-    trace = record(ctx, rnd, 8000 if ctx.thorough else 1500, worst)
+    trace = record(ctx, rnd, 5000 if ctx.thorough else 1500, worst)
     clean = [{k: v for k, v in r.items() if k != "_sc"} for r in trace]
     acc = ctx.validate("Trace_Grouping", "Trace_Grouping.cfg", clean)
     rounds = 0
